@@ -10,10 +10,11 @@ from rdkit import Chem
 from . import common, lib_scheme as S, lib_molgen as G
 
 PROPS = ['PGA.Props.C04']
-GEN = []
+GEN = ['Chars', 'MolQuery']
 OBLIGATIONS = ['PGA.Scheme.' + t for t in [
     'C04_cnt_union', 'C04_centres_union', 'C04_groupCount_union', 'C04_distinctSets_union',
-    'C04_remap_additive', 'C04_descriptors_union']]
+    'C04_remap_additive', 'C04_descriptors_union']] + ['PGA.C04.' + t for t in [
+    'C04_load_connected', 'C04_embeds_union', 'C04_aromatize_union', 'C04_decompose_union']]
 RULE = ('cases = (scheme, A, B[, C]): all ordered pairs (incl. self-pairs) from a pool of fixed and grown molecules per scheme, '
         'some triples, pairs with an out-of-vocabulary component (failure propagation), for the nine shipped schemes. '
         'distinct = distinct (scheme, A, B); non-trivial = both components have >= 2 heavy atoms or one fails.')
@@ -50,6 +51,9 @@ def run(ctx):
             check_pair(ctx, name, lib, t, [res[x] for x in t], batch, full)
         full.run()
     full.run()
+    # table observation behind C04_decompose_union: no pattern of any shipped scheme carries a molecule-level prefix (nor `*`)
+    ctx.assumption('shipped_schemes_without_molecule_level_prefix_and_star', bool(full.flags) and all(f['nomolprefix'] and f['nostar'] for f in full.flags),
+                   '%d scheme transmissions, all read by the model reader: noMolPrefix and noStar hold for each' % len(full.flags))
     replies = ctx.model([b[0] for b in batch])
     if replies is not None:
         for (req, impl, where), rep in zip(batch, replies):
